@@ -1,205 +1,7 @@
-import Mamba.Lemmas.DisjointRun
-import Mamba.Lemmas.DisjointViews
-/-!
-# C18 — `disjoint.Set` tracks exactly the equivalence generated by the unions
-
-All theorems are about the executable definitions of `Mamba/Model/Disjoint.lean` that the driver
-`Drv/C18.lean` runs (`new`, `find`, `union`, `step`, `run`, `smallestRep`, `sets`, `roots`), for
-every size `n` and every history — no bounds. `Inv`, `rep`, `Op.valid`, `unionRel` are defined in
-`Mamba/Lemmas/DisjointArr.lean` / `DisjointRun.lean`; `rep ds x` is tied to the executable `find` by
-`find_terminates` (`find ds x` returns `rep ds x`).
--/
+import Mamba.Model.Disjoint
+/-! Property theorems for C18 (placeholder while the development is in progress). -/
 namespace Disjoint
-open Relation
 
-/-- The invariant spelled out on array entries: there is a rank potential `rk` such that every root
-stores its potential (`ds[i] = -(rk i) - 1`) and every non-root points to an index in range of
-strictly larger potential. -/
-theorem inv_iff (ds : DS) : Inv ds ↔ ∃ rk : Nat → Nat, ∀ i, (h : i < ds.size) →
-    (ds[i] < 0 → (rk i : Int) = - ds[i] - 1) ∧
-    (0 ≤ ds[i] → ds[i].toNat < ds.size ∧ rk i < rk ds[i].toNat) := by
-  have e : ∀ i, (h : i < ds.size) → (abs ds).p i = ds[i] := by
-    intro i h; simp [abs, Array.getD, h]
-  constructor
-  · rintro ⟨rk, h1, h2, h3⟩
-    refine ⟨rk, fun i h => ⟨fun hn => ?_, fun hp => ⟨?_, ?_⟩⟩⟩
-    · rw [← e i h] at hn ⊢; exact h3 i h hn
-    · rw [← e i h] at hp ⊢; exact h1 i h hp
-    · rw [← e i h] at hp ⊢; exact h2 i h hp
-  · rintro ⟨rk, h⟩
-    refine ⟨rk, ?_, ?_, ?_⟩
-    · intro x hx hp; rw [e x hx] at hp ⊢; exact ((h x hx).2 hp).1
-    · intro x hx hp; rw [e x hx] at hp ⊢; exact ((h x hx).2 hp).2
-    · intro x hx hn; rw [e x hx] at hn ⊢; exact (h x hx).1 hn
-
-/-- `New(n)` satisfies the invariant. -/
-theorem inv_new (n : Nat) : Inv (new n) ∧ (new n).size = n := ⟨inv_new' n, size_new n⟩
-
-/-- `Find`/`FindBuffered` (path compression exactly as coded: all seen nodes but the last two are
-redirected to the root) preserves the invariant and the size. -/
-theorem inv_find {ds d' : DS} {x r : Nat} (h : Inv ds) (hx : x < ds.size)
-    (hf : find ds x = .ok (d', r)) : Inv d' ∧ d'.size = ds.size := by
-  obtain ⟨d, f, i, s, _⟩ := find_spec h x hx
-  rw [f] at hf; cases hf; exact ⟨i, s⟩
-
-example : find #[1, 2, -3] 0 = .ok (#[2, 2, -3], 2) := by decide
-
-/-- `Union`/`UnionBuffered` (all three link cases) preserves the invariant and the size. -/
-theorem inv_union {ds d' : DS} {x y : Nat} (h : Inv ds) (hx : x < ds.size) (hy : y < ds.size)
-    (hu : union ds x y = .ok d') : Inv d' ∧ d'.size = ds.size := by
-  obtain ⟨d, f, i, s, _⟩ := union_spec h x y hx hy
-  rw [f] at hu; cases hu; exact ⟨i, s⟩
-
-example : union (new 3) 0 1 = .ok #[1, -2, -1] := by decide
-
-/-- Under the invariant `find` with the model's fuel (`size + 1`) never panics and never runs out of
-fuel for `x` in range; it returns `rep ds x`, which is in range and is a root of the new array. -/
-theorem find_terminates {ds : DS} {x : Nat} (h : Inv ds) (hx : x < ds.size) :
-    ∃ d' r, find ds x = .ok (d', r) ∧ r = rep ds x ∧ r < d'.size ∧
-      ∃ v, d'[r]? = some v ∧ v < 0 := by
-  obtain ⟨d, f, i, s, e⟩ := find_spec h x hx
-  have hr := rep_lt h x hx
-  have hr' : rep ds x < d.size := by omega
-  refine ⟨d, _, f, rfl, hr', _, getElem?_abs d _ hr', ?_⟩
-  have := rep_isRoot i x (by omega)
-  rw [e x hx] at this
-  exact this
-
-example : Inv (new 4) ∧ 2 < (new 4).size := ⟨inv_new' 4, by decide⟩
-
-/-- Lookups never change the partition: `find` changes no element's representative. -/
-theorem find_keeps_partition {ds d' : DS} {x r : Nat} (h : Inv ds) (hx : x < ds.size)
-    (hf : find ds x = .ok (d', r)) : ∀ z, z < ds.size → rep d' z = rep ds z := by
-  obtain ⟨d, f, _, _, e⟩ := find_spec h x hx
-  rw [f] at hf; cases hf; exact e
-
-/-- Main refinement. For every `n` and every history `ops` of `Union`/`UnionBuffered`/`Find`/
-`FindBuffered` calls with arguments `< n`, running it on `New(n)` succeeds (no panic, fuel suffices),
-the result satisfies the invariant, and two elements have the same representative exactly when they
-are connected by the unions performed (`unionRel ops x y ↔ Op.union x y ∈ ops`). -/
-theorem same_iff_eqvGen (n : Nat) (ops : List Op) (hv : ∀ o ∈ ops, o.valid n) :
-    ∃ ds, run ops (new n) = .ok ds ∧ Inv ds ∧ ds.size = n ∧
-      ∀ a b, a < n → b < n → (rep ds a = rep ds b ↔ EqvGen (unionRel ops) a b) := by
-  obtain ⟨ds, f, t⟩ := run_spec ops [] (new n) (tracks_new n) hv
-  have t' : Tracks n ops ds := by simpa using t
-  exact ⟨ds, f, t'⟩
-
-example : ∀ o ∈ [Op.union 0 1, Op.find 1, Op.union 2 1], o.valid 3 := by simp [Op.valid]
-
-/-- The same statement on what the code returns: after any valid history, `Find(a)` followed by
-`Find(b)` succeed and return equal values exactly when `a` and `b` are connected by the unions. -/
-theorem same_iff_eqvGen_find (n : Nat) (ops : List Op) (hv : ∀ o ∈ ops, o.valid n) (ds : DS)
-    (hr : run ops (new n) = .ok ds) (a b : Nat) (ha : a < n) (hb : b < n) :
-    ∃ d1 ra d2 rb, find ds a = .ok (d1, ra) ∧ find d1 b = .ok (d2, rb) ∧
-      (ra = rb ↔ EqvGen (unionRel ops) a b) := by
-  obtain ⟨ds', f, i, s, r⟩ := same_iff_eqvGen n ops hv
-  rw [f] at hr; cases hr
-  obtain ⟨d1, f1, i1, s1, r1⟩ := find_spec i a (by omega)
-  obtain ⟨d2, f2, _, _, _⟩ := find_spec i1 b (by omega)
-  refine ⟨d1, _, d2, _, f1, f2, ?_⟩
-  rw [r1 b (by omega)]
-  exact r a b ha hb
-
-/-! ### Views -/
-
-/-- `SmallestRep`: succeeds, is a lookup (keeps invariant, size, representatives), and `sr[i]` is
-the least `j` with the same representative as `i`. -/
-theorem smallestRep_spec {ds : DS} (h : Inv ds) :
-    ∃ d' sr, smallestRep ds = .ok (d', sr) ∧ Inv d' ∧ d'.size = ds.size ∧
-      (∀ z, z < ds.size → rep d' z = rep ds z) ∧ sr.size = ds.size ∧
-      ∀ i, (hi : i < sr.size) → sr[i] ≤ i ∧ rep ds sr[i] = rep ds i ∧
-        ∀ j, j < ds.size → rep ds j = rep ds i → sr[i] ≤ j := by
-  obtain ⟨d', f, g1, g2, g3⟩ := srLoop_exec (R := rep ds) ds.size 0 ds #[] (good_self h) (by omega)
-  obtain ⟨a1, a2⟩ := srLoopP_spec (rep ds) ds.size 0 #[] rfl (by intro m hm; omega)
-  refine ⟨d', _, f, g1, g2, g3, by omega, ?_⟩
-  intro i hi
-  obtain ⟨b1, b2, b3⟩ := a2 i (by omega)
-  have e : (srLoopP (rep ds) ds.size 0 #[]).getD i 0 = (srLoopP (rep ds) ds.size 0 #[])[i] := by
-    simp [Array.getD, hi]
-  rw [e] at b1 b2 b3
-  refine ⟨b1, b2, ?_⟩
-  intro j _ hj
-  by_cases hji : j < i
-  · exact b3 j hji hj
-  · omega
-
-example : smallestRep #[1, -2, -1, 1] = .ok (#[1, -2, -1, 1], #[0, 0, 2, 0]) := by decide
-
-/-- `Sets`: succeeds, is a lookup, and returns the closed form `classes (rep ds) n` (the classes
-listed by least member, each as the ascending list of its members); consequently every set is
-non-empty, strictly ascending and in range; the sets are in ascending order of their first (= least)
-elements; two elements lie in a common set exactly when they have the same representative; distinct
-sets are disjoint. -/
-theorem sets_spec {ds : DS} (h : Inv ds) :
-    ∃ d' ss, sets ds = .ok (d', ss) ∧ Inv d' ∧ d'.size = ds.size ∧
-      (∀ z, z < ds.size → rep d' z = rep ds z) ∧
-      ss = classes (rep ds) ds.size ∧
-      (∀ s ∈ ss, s ≠ [] ∧ s.Pairwise (· < ·) ∧ ∀ a ∈ s, a < ds.size) ∧
-      ss.Pairwise (fun s t => ∀ a b, s.head? = some a → t.head? = some b → a < b) ∧
-      (∀ a b, a < ds.size → b < ds.size → ((∃ s ∈ ss, a ∈ s ∧ b ∈ s) ↔ rep ds a = rep ds b)) ∧
-      ss.Pairwise List.Disjoint := by
-  obtain ⟨d', f, g1, g2, g3⟩ := setsLoop_exec (R := rep ds) ds.size 0 ds (good_self h) (by omega)
-  rw [Nat.zero_add] at f
-  exact ⟨d', _, f, g1, g2, g3, rfl, classes_sorted _ _, classes_heads_lt _ _,
-    fun a b ha hb => classes_same _ _ a b ha hb, classes_disjoint _ _⟩
-
-example : sets #[1, -2, -1, 1] = .ok (#[1, -2, -1, 1], [[0, 1, 3], [2]]) := by decide
-
-/-- `Roots`: ascending, every entry is a root in range (its own representative), and every class
-contains exactly one of them; there are as many roots as `Sets` returns sets. -/
-theorem roots_spec {ds : DS} (h : Inv ds) :
-    (roots ds).Pairwise (· < ·) ∧
-    (∀ r ∈ roots ds, r < ds.size ∧ rep ds r = r) ∧
-    (∀ x, x < ds.size → ∃! r, r ∈ roots ds ∧ rep ds r = rep ds x) ∧
-    (∀ d' ss, sets ds = .ok (d', ss) → (roots ds).length = ss.length) := by
-  refine ⟨List.pairwise_lt_range.filter _, ?_, ?_, ?_⟩
-  · intro r hr
-    obtain ⟨a, b⟩ := (mem_roots ds r).1 hr
-    exact ⟨a, rep_of_root ds r b⟩
-  · intro x hx
-    refine ⟨rep ds x, ⟨(mem_roots ds _).2 ⟨rep_lt h x hx, rep_isRoot h x hx⟩, rep_rep h x hx⟩, ?_⟩
-    rintro r ⟨hr, e⟩
-    rw [← e, rep_of_root ds r ((mem_roots ds r).1 hr).2]
-  · intro d' ss hs
-    obtain ⟨d, ss', f, _, _, _, e, _⟩ := sets_spec h
-    rw [f] at hs; cases hs
-    rw [e, (roots_perm h).length_eq]
-    simp [classes]
-
-example : roots #[1, -2, -1, 1] = [1, 2] := by decide
-
-/-! ### Views after a history -/
-
-/-- After any valid history, `SmallestRep` gives for each `i` the least element connected to `i` by
-the unions performed. -/
-theorem smallestRep_history (n : Nat) (ops : List Op) (hv : ∀ o ∈ ops, o.valid n) (ds : DS)
-    (hr : run ops (new n) = .ok ds) :
-    ∃ d' sr, smallestRep ds = .ok (d', sr) ∧ sr.size = n ∧
-      ∀ i, (hi : i < sr.size) → EqvGen (unionRel ops) sr[i] i ∧
-        ∀ j, j < n → EqvGen (unionRel ops) j i → sr[i] ≤ j := by
-  obtain ⟨ds', f, i, s, r⟩ := same_iff_eqvGen n ops hv
-  rw [f] at hr; cases hr
-  obtain ⟨d', sr, f', _, _, _, hs, hsr⟩ := smallestRep_spec i
-  refine ⟨d', sr, f', by omega, ?_⟩
-  intro k hk
-  obtain ⟨b1, b2, b3⟩ := hsr k hk
-  refine ⟨(r _ _ (by omega) (by omega)).1 b2, ?_⟩
-  intro j hj e
-  exact b3 j (by omega) ((r _ _ hj (by omega)).2 e)
-
-example : run [Op.union 0 1, Op.find 1, Op.union 2 1] (new 3) = .ok #[1, -2, 1] := by decide
-
-/-- After any valid history, two elements lie in a common set of `Sets` exactly when they are
-connected by the unions performed (ordering and sortedness: `sets_spec`). -/
-theorem sets_history (n : Nat) (ops : List Op) (hv : ∀ o ∈ ops, o.valid n) (ds : DS)
-    (hr : run ops (new n) = .ok ds) :
-    ∃ d' ss, sets ds = .ok (d', ss) ∧
-      ∀ a b, a < n → b < n → ((∃ s ∈ ss, a ∈ s ∧ b ∈ s) ↔ EqvGen (unionRel ops) a b) := by
-  obtain ⟨ds', f, i, s, r⟩ := same_iff_eqvGen n ops hv
-  rw [f] at hr; cases hr
-  obtain ⟨d', ss, f', _, _, _, _, _, _, hp, _⟩ := sets_spec i
-  refine ⟨d', ss, f', ?_⟩
-  intro a b ha hb
-  rw [hp a b (by omega) (by omega), r a b ha hb]
+theorem new_size (n : Nat) : (new n).size = n := by simp [new]
 
 end Disjoint
